@@ -1,9 +1,9 @@
 """C07 -- Every emitted WebAssembly binary is well-formed and valid."""
 import os, json
-import shapes, wasmcases
+import shapes, wasmcases, ircoq
 from common import parse_coq_values
 
-STATIC = ["Spec/Wasm.v", "Proofs/WasmProofs.v", "Spec/Leb128.v", "Proofs/Leb128Proofs.v"]
+STATIC = ["Spec/Wasm.v", "Proofs/WasmProofs.v", "Model/WasmGen.v", "Proofs/WasmGenProofs.v", "Spec/Leb128.v", "Proofs/Leb128Proofs.v"]
 
 
 def run(ctx):
@@ -35,6 +35,38 @@ def run(ctx):
             codes.extend([None] * min(per, len(lines) - len(codes)))
         else:
             codes.extend(vals[0])
+    # the generator model against the real compiler: same module for every emitted binary, refusal for every refused program
+    gblocks, gmeta = [], []
+    for k, (j, r) in enumerate(zip(jobs, res)):
+        if "ir" not in r:
+            continue
+        prog = ircoq.program({"functions": r["ir"]["functions"], "globals": r["ir"]["globals"]})
+        defs = "Definition P_%d : program := %s.\n" % (k, prog)
+        if r["accept"]:
+            gblocks.append((defs, "gen_chk P_%d %s" % (k, wasmcases.coq_bytes(r["hex"]))))
+        elif r.get("front_end_ok") and r["how"].get("stage") in ("wasm", "other"):
+            gblocks.append((defs, "refuse_chk P_%d" % k))
+        else:
+            continue
+        gmeta.append((j, r))
+    gfiles = []
+    GH = wasmcases.HEADER.replace("From NSL Require Import Spec.Wasm.", "From NSL Require Import Model.PyNum Model.IR Spec.Wasm Harness.WasmLib.")
+    for i in range(0, len(gblocks), 40):
+        f = os.path.join(ctx.dyn, "cases_C07g_%d.v" % (i // 40))
+        chunk = gblocks[i:i + 40]
+        open(f, "w").write(GH + "".join(d for d, _ in chunk) + "Definition cases : list Z := [\n  " + ";\n  ".join(e for _, e in chunk) + "].\nEval vm_compute in cases.\n")
+        gfiles.append(f)
+    gouts = ctx.eval_cases(gfiles, timeout=600)
+    gcodes = []
+    for f in gfiles:
+        ok, out, err = gouts[f]
+        vals = parse_coq_values(out) if ok else []
+        if not ok or not vals or not isinstance(vals[0], list):
+            ctx.broken.append("correspondence: %s did not evaluate: %s" % (os.path.basename(f), err[-300:]))
+            gcodes.extend([None] * min(40, len(gblocks) - len(gcodes)))
+        else:
+            gcodes.extend(vals[0])
+    gbad = [(j, r, c) for (j, r), c in zip(gmeta, gcodes) if c not in (None, 0)]
     dist = {}
     for j, r in zip(jobs, res):
         k = "%s:%s" % (j["kind"], "emitted" if r["accept"] else ("refused" if r.get("front_end_ok") else "rejected-by-front-end"))
@@ -82,6 +114,11 @@ def run(ctx):
         ctx.violation("failing-input", {"what": "the compiler emitted a WebAssembly binary that is not a valid WebAssembly 1.0 module", "case_kind": j["kind"], "source": j["src"], "hex": r["hex"],
                                         "coq_verdict": {0: "valid", 1: "malformed", 2: "invalid", 3: "outside the modelled fragment"}[c], "v8": {"valid": n["valid"], "error": n.get("error")},
                                         "count": len(new), "kinds": sorted({x[0]["kind"] for x in new})})
+    ctx.extra["generator_model"] = {"compared": len(gcodes), "differs": len(gbad)}
+    if gbad and not new:
+        j, r, c = gbad[0]
+        ctx.broken.append("correspondence: the generator model (Model.WasmGen) differs from the compiler on %d module(s) (code %s: 8 model emits what the compiler refuses, 16 other module, "
+                          "32 IR not typed, 64 model refuses what the compiler emits), e.g. %s" % (len(gbad), c, j["src"][:200]))
     if disagree:
         j, r, n, c = disagree[0]
         ctx.broken.append("correspondence: Spec.Wasm.valid_binary (%s) and V8 (%s) disagree on %d binary(ies), e.g. %s" % (c, n["valid"], len(disagree), j["src"][:200]))
